@@ -519,7 +519,7 @@ class World:
             frm = sk
             inp, py = [], self.fetch(sk, rng.choice(["ctor", "view"]))
         else:
-            inp, py = self.gen(allow, np_forms=np_forms, like_buf=b).value(etx, b, like=cur)
+            inp, py = self.gen(allow, np_forms=np_forms, like_buf=b, dims_p=0).value(etx, b, like=cur)     # (dimensions are a constructor form only)
         exc = ""
         try:
             parent = self.walk(self.fetch(key, route), acc)
